@@ -203,6 +203,42 @@ pub fn replay_trunc(args: &Args) {
                 }
             }
         }
+        // a history on a fresh object: truncate(1.0) removes nothing (no probability exceeds one, so every infoset is left
+        // as it is), and a later truncate(h) must then do what it does on a fresh profile
+        if h.is_finite() && h < 1.0 {
+            let tree3 = strat_game([&nacts[0], &nacts[1]], [0, 0]);
+            let wc3 = w.clone();
+            let res3 = util::catch(move || {
+                let game = tree::build(&tree3).expect("carrier game");
+                let mut strat = game.from_named(named_from(&wc3, [0, 0])).expect("grid profile");
+                strat.truncate(1.0);
+                let mut copy = strat.clone();
+                strat.truncate(h);
+                copy.truncate(h);
+                (strat.verif_dense(), copy.verif_dense())
+            });
+            match res3 {
+                Err(msg) => bad.push(json!({"what": "panic (truncate(1.0) first)", "observed": msg})),
+                Ok((dense, dense_copy)) => {
+                    for (label, dd) in [("the object", &dense), ("a clone taken in between", &dense_copy)] {
+                        let mut ix = 0;
+                        for pl in 0..2 {
+                            for (j, g) in split(&dd[pl], &w[pl]).iter().enumerate() {
+                                let e = &exp[ix];
+                                ix += 1;
+                                if e["fixed"].as_bool().unwrap() {
+                                    let want: Vec<f64> = e["v"].as_array().unwrap().iter().map(util::rat).collect();
+                                    if !g.iter().zip(want.iter()).all(|(a, b)| util::close(*a, *b, 1e-12) && ((*a == 0.0) == (*b == 0.0))) {
+                                        bad.push(json!({"what": "truncate(h) after a truncate(1.0) that removed nothing differs from truncate(h) on a fresh profile",
+                                            "class": "sequence", "on": label, "player": pl + 1, "infoset": j + 1, "observed": g, "specified": e["v"]}));
+                                    }
+                                }
+                            }
+                        }
+                    }
+                }
+            }
+        }
         // the same profile with every ZERO weight replaced by 2^-70: a positive probability so small that it is absorbed
         // by rounding (the others are bitwise the same, the survivors still sum to one).  Any threshold >= 1e-3 must
         // remove such an action: the expectation is the one of the profile with exact zeros
